@@ -184,7 +184,27 @@ pub fn generate(repo: &PathBuf) -> Result<String, String> {
         }
     }
 
-    let mut s = header("ant-bootstrap/src/{config.rs,lib.rs,cache_store.rs}");
+    // ---- initial_peers.rs: how the start-up path (`PeersArgs::get_bootstrap_addr`) consumes the result of load_cache_data
+    let ip = parse_file(&repo.join("ant-bootstrap/src/initial_peers.rs"))?;
+    let gb = toks(&impl_fn(&ip, "PeersArgs", None, "get_bootstrap_addr")?.block);
+    let n_loads = gb.matches("load_cache_data(").count();
+    let startup_ignores = if n_loads == 1 && gb.contains("ifletOk(data)=BootstrapCacheStore::load_cache_data(&cfg){") {
+        true // any failure to load the cache is skipped over
+    } else if n_loads == 1
+        && (gb.contains("load_cache_data(&cfg)?")
+            || (gb.contains("matchBootstrapCacheStore::load_cache_data(&cfg){") && (gb.contains("=>returnErr(") || gb.contains("=>Err("))))
+    {
+        false // some load errors are returned to the caller
+    } else {
+        return Err("initial_peers.rs: get_bootstrap_addr: cannot tell how the result of load_cache_data is consumed".into());
+    };
+    for want in ["ifself.first{", "Self::read_bootstrap_addr_from_env()", "ifself.local||cfg!(feature=\"local\")", "if!self.ignore_cache{", "self.get_bootstrap_cache_path()?", "Err(Error::NoBootstrapPeersFound)"] {
+        if !gb.contains(want) {
+            return Err(format!("initial_peers.rs: get_bootstrap_addr: step `{want}` not found"));
+        }
+    }
+
+    let mut s = header("ant-bootstrap/src/{config.rs,lib.rs,cache_store.rs,initial_peers.rs}");
     s.push_str("namespace SafeNet.Gen.BootCache\n");
     s.push_str(&format!("/-- `MAX_PEERS` (config.rs) -/\ndef maxPeers : Nat := {max_peers}\n"));
     s.push_str(&format!("/-- `MAX_ADDRS_PER_PEER` (config.rs) -/\ndef maxAddrsPerPeer : Nat := {max_addrs}\n"));
@@ -199,6 +219,7 @@ pub fn generate(repo: &PathBuf) -> Result<String, String> {
     s.push_str("/-- `failure_rate` divides `failure_count` by the sum of both counters -/\ndef rateIsFailOverTotal : Bool := true\n");
     s.push_str(&format!("/-- `BootstrapCacheStore::write` goes through `AtomicWriteFile::options().open(&self.cache_path)` … `commit()` and nothing else touches the path -/\ndef writeAtomic : Bool := {}\n", lean_bool(atomic)));
     s.push_str(&format!("/-- `load_cache_data` runs `perform_cleanup` on what it parsed -/\ndef loadCleans : Bool := {}\n", lean_bool(load_cleans)));
+    s.push_str(&format!("/-- `PeersArgs::get_bootstrap_addr` consumes `load_cache_data` with `if let Ok(data) = …`: no load error reaches the caller -/\ndef startupIgnoresLoadError : Bool := {}\n", lean_bool(startup_ignores)));
     s.push_str("end SafeNet.Gen.BootCache\n");
     Ok(s)
 }
